@@ -160,6 +160,55 @@ def deleteDirAll (w : World) (p : Str) : Option World :=
 def fileOrDir (w : World) (p : Str) : Option Bool :=
   if p == ['/'] then some false else (w.find? p).map (fun e => !e.isDir)
 
+/-! #### Path resolution (what the kernel does with the text of a path before any of the operations above)
+
+  The operations above take *clean* absolute paths.  A path as written in a program may contain `.`, `..`, doubled
+  and trailing slashes; the kernel walks it component by component: every component that is walked *through* must be
+  an existing directory (so `missing/../f` and `file.txt/../f` fail although `f` exists), `..` goes to the parent (the
+  root is its own parent), `.` and empty components stay, and a trailing slash (or final `.`) demands a directory. -/
+
+def pathOfComps (cs : List Str) : Str := if cs.isEmpty then ['/'] else '/' :: joinStr ['/'] cs
+
+/-- walk the components `cs` from the directory `cur` (a stack of names, innermost last) -/
+def resolveComps (w : World) : List Str → List Str → Option (List Str)
+  | [], cur => some cur
+  | c :: rest, cur =>
+    if c == ['.', '.'] then resolveComps w rest cur.dropLast
+    else if rest.isEmpty then some (cur ++ [c])
+    else if w.isDir (pathOfComps (cur ++ [c])) then resolveComps w rest (cur ++ [c])
+    else none
+
+/-- the clean absolute path an absolute path text denotes, `none` when the walk fails; other texts are left alone -/
+def resolve (w : World) (p : Str) : Option Str :=
+  match p with
+  | '/' :: _ =>
+    let raw := p.splitOn '/'
+    let comps := raw.filter (fun c => !c.isEmpty && c != ['.'])
+    let wantsDir := match raw.getLast? with | some c => c.isEmpty || c == ['.'] | none => false
+    match resolveComps w comps [] with
+    | some cur =>
+      let q := pathOfComps cur
+      if wantsDir && !w.isDir q then none else some q
+    | none => none
+  | _ => some p
+
+def readFileP (w : World) (p : Str) : Option Str := (w.resolve p).bind w.readFile
+def writeFileP (w : World) (p : Str) (s : Str) : Option World := (w.resolve p).bind (w.writeFile · s)
+def deleteFileP (w : World) (p : Str) : Option World := (w.resolve p).bind w.deleteFile
+def readDirP (w : World) (p : Str) : Option (List Str) := (w.resolve p).bind w.readDir
+def deleteDirAllP (w : World) (p : Str) : Option World := (w.resolve p).bind w.deleteDirAll
+def fileOrDirP (w : World) (p : Str) : Option Bool := (w.resolve p).bind w.fileOrDir
+/-- `create_dir_all` creates what is missing, so its path cannot be resolved first: `.` and empty components are
+    dropped lexically; a path containing `..` is resolved (modelled only for walks through existing directories —
+    the correspondence check generates no other `..` for this call) -/
+def createDirAllP (w : World) (p : Str) : Option World :=
+  match p with
+  | '/' :: _ =>
+    let comps := (p.splitOn '/').filter (fun c => !c.isEmpty && c != ['.'])
+    if comps.contains ['.', '.'] then (w.resolve p).bind w.createDirAll
+    else w.createDirAll (pathOfComps comps)
+  | _ => w.createDirAll p
+
 def isTrimChar (c : Char) : Bool :=
   c == ' ' || c == '\t' || c == '\n' || c == '\x0b' || c == '\x0c' || c == '\r'
 
